@@ -319,13 +319,16 @@ theorem live_not_frozen (hwf : WF wb) {k : Nat} (h : live wb built I O k = true)
     · rw [h] at h1; exact absurd h1 (by simp)
     · rw [h] at h2; exact absurd h2 (by simp)
 
-/-- a walked cell stays in the cell map unless it is a range -/
-theorem live_keep_or_range (hwf : WF wb) {k : Nat} (h : live wb built I O k = true) :
-    keep wb built I O k = true ∨ isRange wb k = true := by
-  rcases live_cases built I O hwf h with h | ⟨h | h, _⟩
-  · left; simp [keep, needed_of_out built I O h]
-  · left; simp [keep, h]
-  · exact Or.inr h
+/-- a walked cell stays in the cell map -/
+theorem live_keep {k : Nat} (h : live wb built I O k = true) : keep wb built I O k = true := by
+  simp [keep, h]
+
+theorem live_keep_or_range {k : Nat} (h : live wb built I O k = true) :
+    keep wb built I O k = true ∨ isRange wb k = true := Or.inl (live_keep built I O h)
+
+theorem keep_cases {k : Nat} (h : keep wb built I O k = true) :
+    live wb built I O k = true ∨ frozen wb built I O k = true := by
+  simpa [keep] using h
 
 theorem frozen_keep {k : Nat} (h : frozen wb built I O k = true) : keep wb built I O k = true := by
   simp [keep, h]
@@ -641,9 +644,9 @@ theorem reload_preserved (hwf : WF wb) (hl : Local wb f) (hr : FreezeReady wb f 
   apply live_preserved s.built I O hwf hl (fun o ho => (hr.outs o ho).1) C v s.inp
     (fun k => missing wb (freeze wb f I O s) k || frozen wb s.built I O k) (reloadInp wb blank (freeze wb f I O s))
   · intro k hk
-    simp [hmiss k (live_keep_or_range s.built I O hwf hk), live_not_frozen s.built I O hwf hk]
+    simp [hmiss k (live_keep_or_range s.built I O hk), live_not_frozen s.built I O hwf hk]
   · intro k hk _
-    simp only [reloadInp, hmiss k (live_keep_or_range s.built I O hwf hk)]
+    simp only [reloadInp, hmiss k (live_keep_or_range s.built I O hk)]
     rw [freeze_inp, live_not_frozen s.built I O hwf hk]; simp
   · intro k hk
     refine ⟨by simp [hk], fun hck => ?_⟩
